@@ -1,4 +1,5 @@
 import RV.Model.Transform
+import RV.Model.Frame
 import RV.Driver.Util
 open RV RV.Driver RV.Transform
 
@@ -33,6 +34,10 @@ def step (toks : List String) : String :=
       | "hybFwdVel" => houtStr (hybFwdVel m0 x0 act tst)
       | "hybInvPos" => houtStr (hybInvPos m0 x0 act tst)
       | "hybInvVel" => houtStr (hybInvVel m0 x0 act tst)
+      -- public frame changes (tools.c): all particles as (m, x) pairs, no test-particle tail
+      | "moveToHel" => hxs ((RV.Frame.moveToHel ((m0, x0) :: act)).map (·.2))
+      | "moveToCom" => hxs ((RV.Frame.moveToCom ((m0, x0) :: act)).map (·.2))
+      | "com" => let c := RV.Frame.com ((m0, x0) :: act); hxs [c.1, c.2]
       | _ => "bad-op"
   | _ => "bad-op"
 
